@@ -160,6 +160,12 @@ impl Monitor for TlvMon {
                     replay: json!(null),
                 });
             }
+            if !is_slave && matches!(s.ev, Ev::Bmca) && !s.after.iter().any(|x| matches!(x, PS::Master)) {
+                // neither slave nor master (a slave-only instance that lost its parent): nothing
+                // is announced and no parent delivers a path; whatever a later parent sends
+                // replaces the list, so the reference follows the data set here
+                st.path = got.clone();
+            }
             if !is_slave && matches!(s.ev, Ev::Bmca) && s.after.iter().any(|x| matches!(x, PS::Master)) {
                 st.path.clear();
                 // the instance is grandmaster now: its path is its own identity alone
